@@ -71,6 +71,7 @@ func runC17(w *World, p map[string]int) {
 		w.Violate("C17.start", "Start: %v", err)
 		return
 	}
+	inst.DB.PostCommitGate = true
 	pre := 4 + t.Int(param(p, "pre", 18))
 	for i := 0; i < pre; i++ {
 		if t.Bool(12) {
